@@ -12,6 +12,7 @@ Inspired by https://github.com/agronholm/typeguard/blob/master/typeguard/importh
 from __future__ import annotations
 
 import contextlib
+import dataclasses
 import logging
 import sys
 from importlib.abc import FileLoader, MetaPathFinder
@@ -267,10 +268,18 @@ def install_import_hook(
 
     if config.configuration.ignore_methods:
         module_prefix = f"{module_to_instrument}."
-        to_cover_config.no_cover.extend(
-            method.removeprefix(module_prefix)
-            for method in config.configuration.ignore_methods
-            if method.startswith(module_prefix)
+        # Do not extend the given (possibly global) configuration in place: the names would
+        # accumulate over several hooks and apply to other modules as well.
+        to_cover_config = dataclasses.replace(
+            to_cover_config,
+            no_cover=[
+                *to_cover_config.no_cover,
+                *(
+                    method.removeprefix(module_prefix)
+                    for method in config.configuration.ignore_methods
+                    if method.startswith(module_prefix)
+                ),
+            ],
         )
 
     to_wrap = None
